@@ -113,6 +113,38 @@ func runC06(c *Ctx) {
 			checkTwinComparison(c, "C06.R7", "C06.R7", tw, K["OptionBadfilter"])
 		}
 	}
+	// ---------- R11: document-level exceptions of different scope never tie ----------
+	// The suppression scope (everything / generic rules only) is read off the ONE referrer
+	// exception that wins the priority scan (R2, R3).  If a $urlblock exception and a
+	// $genericblock exception that are otherwise alike tie in priority, the scan keeps whichever
+	// comes first, and the verdict class depends on the order of the rules.
+	{
+		c.Rule("C06.R11", "SYM", "a $urlblock and a $genericblock referrer exception that are otherwise alike do not tie in priority (or the scope would depend on rule order)", 1)
+		g := NewGate(c.P)
+		s := g.Eval(ihp)
+		u := g.U
+		ps := g.ParamExprs(ihp)
+		f, r := ps[0], ps[1]
+		H := u.ToBool(g.RetExpr(s, 0))
+		u64 := types.Typ[types.Uint64]
+		enF, enR := u.Field(f, "enabledOptions", u64), u.Field(r, "enabledOptions", u64)
+		eval := func(bf, br int64) (Ref, bool) {
+			h := u.SubstBool(H, map[string]*E{enF.key: u.ConstVal(constantInt(bf), u64), enR.key: u.ConstVal(constantInt(br), u64)})
+			h = u.SubstBool(h, map[string]*E{r.key: f}) // alike in everything else
+			return h, h == True || h == False
+		}
+		h1, ok1 := eval(K["OptionUrlblock"], K["OptionGenericblock"])
+		h2, ok2 := eval(K["OptionGenericblock"], K["OptionUrlblock"])
+		key := "IsHigherPriority: $urlblock vs $genericblock document exceptions"
+		switch {
+		case !ok1 || !ok2:
+			c.Fail("C06.R11", key, ihp.Pos(), "UNDECIDED: the comparison of the two abstract rules does not fold: "+clip(u.ShowBool(h1), 100)+" / "+clip(u.ShowBool(h2), 100))
+		case h1 == False && h2 == False:
+			c.Fail("C06.R11", key, ihp.Pos(), "the two tie (neither is higher): with both matching the referrer, the one listed first becomes the document rule; a domain-specific blocking rule is then suppressed under one order of the rules and blocks under the other")
+		default:
+			c.OK("C06.R11", key, ihp.Pos(), "one of them is strictly higher, whatever the order")
+		}
+	}
 	importRules(c, runC08, map[string]string{"C08.R1": "C06.R8", "C08.R2": "C06.R8"}, map[string]string{"C06.R8": "rules disabled by badfilter never survive the filter, whatever their position (shared with C08.R1/R2)"})
 	checkDocumentOnly(c, "C06.R9")
 	importRules(c, runC11, map[string]string{"C11.R5": "C06.R10"}, nil)
